@@ -38,6 +38,8 @@ int main(int argc, char **argv) {
     for (int v = 0; v < 256; v++) { memset(t, 0x33, 32); t[18] = (uint8_t)v; one(t, R_EPOCH + 77 * R_STEP + 5, 2, r, "byte18-value"); }
     /* bytes beyond the 19 requested must not matter */
     for (int b = 19; b < 32; b++) { memset(t, 0, 32); t[b] = 0xFF; one(t, R_EPOCH + 3 * R_STEP, 0, r, "beyond-19"); }
+    { static const uint64_t BIG[] = { R_EPOCH + (1ULL << 32), R_EPOCH + (1ULL << 32) + 12345678, (1ULL << 33) + 5, 1ULL << 40, (1ULL << 63) + 77, UINT64_MAX - 1, R_EPOCH + 1024 * R_STEP, R_EPOCH + 1024 * R_STEP - 1 };
+      for (unsigned i = 0; i < sizeof BIG / sizeof *BIG; i++) { memset(t, 0x42 + (int)i, 32); t[3] = (uint8_t)i; one(t, BIG[i], i & 7, r, "large-clock"); } }
     memset(t, 0, 32); one(t, 0, 0, r, "zero"); memset(t, 0xFF, 32); one(t, UINT64_MAX, 7, r, "ones");
     /* distinct outputs give distinct secrets: all single-bit tapes produced pairwise different secrets (implied by equality with the tape) */
     res_sample(r, "tape with only bit b set (b=0..151), clock=epoch+5 months -> store bytes 10..28 equal the tape, top two bits of byte 18 dropped");
